@@ -262,6 +262,8 @@ def rx_passes(pid, tier):
         P = [('ordered term sets of size<=2 from a pool of %d term specs x inputs<=%d over {a,b,c,space,\\n,\\t,\\r,\\v} x 3 whitespace option combinations' % (12 if q else 30, 4 if q else 5),
               ['--mode', 'c04', '--setsize', '2', '--pool', '0' if q else '1', '--maxlen', '4' if q else '5'])]
         if not q: P.append(('ordered term sets of size 3 from the 12-spec pool x inputs<=4', ['--mode', 'c04', '--setsize', '3', '--pool', '0', '--maxlen', '4']))
+        P.append(('ordered term sets of size 4..6 from a pool of %d mutually overlapping term specs (six-slot list grammar: more terms end in one automaton state than it has slots for) x inputs<=%d over {a,b,c,space}' % (8 if q else 10, 3 if q else 4),
+                  ['--mode', 'c04w', '--setsize', '6', '--pool', '0' if q else '1', '--maxlen', '3' if q else '4']))
         return P
     if pid == 'C10':
         return [('3 term sets (single-char, multi-char, multi-line lexemes) x 2 grammars (token list; statements with an error rule) x inputs<=%d over {x,q,;,space,\\t,\\r,\\n} x 3 whitespace option combinations' % (5 if q else 7),
